@@ -1,108 +1,228 @@
-"""C19 - socket waits never exceed the configured timeouts (structural clauses)."""
+"""C19 - socket waits never exceed the configured timeouts (structural clauses).
+
+All clauses are decided on effect rows: the functions are interpreted with Herbrand terms (sa/terms.py); a row is the
+set of decisions taken on symbolic atoms plus the returned term / the ordered events.  Nothing keys on local names,
+temporaries, the order of independent tests, or whether a step lives in a helper method (helpers that reach a rule
+event are inlined)."""
 from __future__ import annotations
 
 import ast
 
 from .. import astq
-from ..events import EventRule, before, evs, outcome_name, run_function
+from ..events import evs, outcome_name, run_function
 from ..interp import AV, BASE_TOP, EXT_TOP, UNK, BaseRule, Out, const, exc
 from ..model import AnalysisError
+from ..terms import T, TermRule, destruct, is_opaque, term_of, tv
 
 TO = "urllib3.util.timeout"
 TIMEOUT = f"{TO}.Timeout"
 CP = "urllib3.connectionpool"
 CN = "urllib3.connection"
 POOL = f"{CP}.HTTPConnectionPool"
+DEFAULT = AV("const", ("enum", "_DEFAULT_TIMEOUT"), truth=True, none=False)
+DEFAULT_T = repr(DEFAULT.val)
 
 
-def _minmax_terms(e):
-    """('max'|'min', [args]) recursively flattened as nested tuples for shape checks."""
-    if isinstance(e, ast.Call) and astq.call_text(e) in ("max", "min") and not e.keywords:
-        return (astq.call_text(e), [_minmax_terms(a) for a in e.args])
-    return astq.text(e)
+class TRule(TermRule):
+    """Terms for the Timeout helpers: fields of self are atoms, self-method calls are terms (with declared raises)."""
+
+    def __init__(self, raising=()):
+        self.raising = dict(raising)  # "self.method" -> exception class it may raise
+
+    def global_value(self, it, name):
+        if name in ("_DEFAULT_TIMEOUT", "_GLOBAL_DEFAULT_TIMEOUT"):
+            return DEFAULT
+        if name.startswith("_") and name not in ("_TYPE_DEFAULT",):
+            return tv(f"g:{name}", none=False)
+        return None
+
+    def getattr(self, it, st, node, base):
+        if base.kind == "self":
+            return tv(f"self.{node.attr}")
+        if base.sym and base.sym.startswith("p:") and base.kind == "unk":
+            return tv(f"{base.sym}.{node.attr}")
+        return None
+
+    def call_hook(self, it, st, node, recv, pos, kw):
+        f = node.func
+        text = ast.unparse(f)
+        args = [term_of(p) for p in pos]
+        kws = [f"{k}={term_of(v)}" for k, v in sorted(kw.items())]
+        if isinstance(f, ast.Attribute) and recv is not None:
+            if f.attr == "clone" and not pos:
+                return [Out("normal", st, tv(T("clone", term_of(recv)), none=False, truth=True))]
+            if recv.kind == "self" or text.startswith(("cls.", "Timeout.")):
+                name = f"self.{f.attr}" if recv.kind == "self" else f"Timeout.{f.attr}"
+                outs = [Out("normal", st, tv(T(name, *args, *kws)))]
+                r = self.raising.get(f.attr)
+                if r:
+                    s2 = st.copy()
+                    s2.log(node, f"{name} raises {r}")
+                    outs.append(Out("raise", s2, exc(r)))
+                return outs
+        if text == "Timeout":
+            # constructor: bind positionals to the public parameter order (total, connect, read)
+            order = ["total", "connect", "read"]
+            named = {k: term_of(v) for k, v in kw.items()}
+            for n, a in zip(order, args):
+                named.setdefault(n, a)
+            return [Out("normal", st, tv(T("new:Timeout", *[f"{k}={named[k]}" for k in sorted(named)]), none=False, truth=True))]
+        if text == "hasattr" and len(pos) == 2:
+            return [Out("normal", st, tv(T("hasattr", *args)))]
+        if text == "float" and pos:
+            s = st.copy()
+            s.ts["ev"] = s.ts.get("ev", ()) + ("float",)
+            return [Out("normal", s, tv(T("float", *args), none=False)), Out("raise", s.copy(), exc("builtins.TypeError")), Out("raise", s.copy(), exc("builtins.ValueError"))]
+        if text == "bool" and pos and pos[0].kind == "const":
+            return [Out("normal", st, const(bool(pos[0].val)))]
+        if text in ("time.monotonic", "getdefaulttimeout"):
+            return [Out("normal", st, tv(T(text), none=False if text == "time.monotonic" else None))]
+        q = it.resolve_callee(node, recv)
+        if q and it.m.is_exception_class(q):
+            return [Out("normal", st, AV("exc", it.m.norm(q), truth=True, none=False))]
+        return None
+
+
+def _rows(outs):
+    return [o for o in outs if not (o.kind == "raise" and o.val.val in (EXT_TOP.val, BASE_TOP.val))]
+
+
+def _norm(t):
+    """min/max with sorted, flattened arguments; everything else structurally."""
+    op, args = destruct(t)
+    if op in ("min", "max"):
+        flat = []
+        for a in args:
+            na = _norm(a)
+            o2, a2 = destruct(na)
+            if o2 == op:
+                flat += list(a2)
+            else:
+                flat.append(na)
+        return T(op, *sorted(flat))
+    if op is None or op == "const":
+        return t
+    return T(op, *[_norm(a) for a in args])
+
+
+def _unset(o, sym):
+    """True / False / None: is the field known to be None-or-default on this row?"""
+    f = o.st.facts.get(sym, (None, None))
+    is_none = f[1]
+    is_def = o.st.ts.get(("cmp", sym, "is", DEFAULT_T))
+    if is_none is True or is_def is True:
+        return True
+    if is_none is False and is_def is False:
+        return False
+    return None
 
 
 def run(ctx):
     m, fold = ctx.model, ctx.fold
     ctx.assume("A1")
     ctx.decline("the arithmetic over elapsed time (that total - elapsed is computed exactly); decided instead: a fresh clock per request, validation on construction, the min/max shape of both computations, the order in which timeouts are applied around the I/O steps")
+    tcls = m.cls(TIMEOUT)
 
-    # ------------------------------------------------------------------ R1 fresh clock per request
-    R1 = ctx.rule("C19-R1", "one request's clock never influences another's: every Timeout returned by _get_timeout is a clone()/from_float() result, and clone() does not copy the start stamp", "E6")
+    # ------------------------------------------------------------------ R1 fresh clock per request / R6 request overrides pool
+    R1 = ctx.rule("C19-R1", "one request's clock never influences another's: every Timeout returned by _get_timeout is a clone()/from_float() result, and clone() does not copy the start stamp", "E10 effect rows")
+    R6 = ctx.rule("C19-R6", "a request-level timeout fully overrides the pool's: the pool's Timeout is used only for the default sentinel", "E10 effect rows of _get_timeout")
     gt = m.method(POOL, "_get_timeout")
-    rets = [r for r in astq.walk_fn(gt.node) if isinstance(r, ast.Return)]
-    ctx.sites(R1, len(rets), 3, "returns of _get_timeout")
-    for r in rets:
-        v = r.value
-        ok = isinstance(v, ast.Call) and ((isinstance(v.func, ast.Attribute) and v.func.attr == "clone") or astq.call_text(v) == "Timeout.from_float")
-        ctx.ob(R1, gt.qual, f"`{astq.text(r)}` is a fresh Timeout", ok, "" if ok else "the pool's (or the caller's) Timeout object is shared between requests: its start stamp carries over", node=r)
+    pt = "p:" + gt.params()[0]
+    outs, it = run_function(m, gt, TRule(), POOL)
+    ctx.states += it.budget.steps
+    rows = [o for o in _rows(outs) if o.kind == "return"]
+    ctx.sites(R1, len(rows), 3, "returning rows of _get_timeout")
+    seen = set()
+    sentinel_rows = 0
+    for o in rows:
+        rt = term_of(o.val)
+        is_to = None
+        for k, v in o.st.ts.items():
+            if isinstance(k, tuple) and k[0] == "isinst" and k[1] == pt and any("Timeout" in c for c in k[2]):
+                is_to = v
+        is_def = o.st.ts.get(("cmp", pt, "is", DEFAULT_T))
+        key = (rt, is_to, is_def)
+        if key in seen:
+            continue
+        seen.add(key)
+        op, args = destruct(rt)
+        fresh = (op == "clone") or (op == "Timeout.from_float")
+        ctx.ob(R1, gt.qual, f"returns {rt}: a fresh Timeout", fresh,
+               "" if fresh else "the pool's (or the caller's) Timeout object itself is handed to the request: its start stamp carries over to the next request", witness=o.st.witness(), node=gt.node)
+        uses_pool = "self.timeout" in rt
+        if uses_pool:
+            sentinel_rows += 1
+            ctx.ob(R6, gt.qual, "the pool's timeout is used only when the request passed the default sentinel", is_def is True,
+                   "" if is_def is True else f"the pool's timeout is returned on a row where the request's value is not known to be the sentinel (decisions: is-Timeout={is_to}, is-sentinel={is_def})", witness=o.st.witness(), node=gt.node)
+            ctx.ob(R6, gt.qual, "for the sentinel the pool's timeout is cloned", rt == T("clone", "self.timeout"), rt, witness=o.st.witness(), node=gt.node)
+        else:
+            ok = (is_to is True and rt == T("clone", pt)) or (is_to is False and rt == T("Timeout.from_float", pt)) or (is_to is None and rt in (T("clone", pt), T("Timeout.from_float", pt)))
+            ctx.ob(R6, gt.qual, f"request value (is-Timeout={is_to}) -> {rt}", ok and is_def is not True,
+                   "" if ok and is_def is not True else "a Timeout must be cloned, a number converted with from_float, and the sentinel must not be treated as a value", witness=o.st.witness(), node=gt.node)
+    ctx.sites(R6, sentinel_rows, 1, "rows using the pool's timeout")
     cl = m.method(TIMEOUT, "clone")
-    rets = [r for r in astq.walk_fn(cl.node) if isinstance(r, ast.Return)]
-    ok = len(rets) == 1 and isinstance(rets[0].value, ast.Call) and astq.call_text(rets[0].value) == "Timeout"
-    kws = {k.arg: astq.text(k.value) for k in rets[0].value.keywords} if ok else {}
-    ok = ok and kws == {"connect": "self._connect", "read": "self._read", "total": "self.total"}
-    ctx.ob(R1, cl.qual, f"clone() == Timeout(connect, read, total) of the same values: {kws}", ok, "" if ok else "a clone differs from its source, or is not a new object")
+
+    class StoreRule(TRule):
+        def setattr(self, it, st, target, base, av):
+            st.ts["ev"] = st.ts.get("ev", ()) + (("store", ast.unparse(target.value), target.attr, term_of(av)),)
+
+    outs, it = run_function(m, cl, StoreRule(), TIMEOUT)
+    crow = [o for o in _rows(outs) if o.kind == "return"]
+    want = T("new:Timeout", "connect=self._connect", "read=self._read", "total=self.total")
+    ok = bool(crow) and all(term_of(o.val) == want and not evs(o) for o in crow)
+    ctx.ob(R1, cl.qual, "clone() == Timeout(connect, read, total) of the same values (a new object, no start stamp)", ok,
+           "" if ok else f"clone returns {[term_of(o.val) for o in crow]}", node=cl.node)
     init = m.method(TIMEOUT, "__init__")
     st_ = [n for n in astq.walk_fn(init.node) if isinstance(n, (ast.Assign, ast.AnnAssign)) and astq.text(n.targets[0] if isinstance(n, ast.Assign) else n.target) == "self._start_connect"]
     ok = bool(st_) and isinstance(st_[0].value, ast.Constant) and st_[0].value.value is None
     ctx.ob(R1, init.qual, "a new Timeout has no start stamp", ok)
-    writers = [(n_, a) for n_, f in m.cls(TIMEOUT).methods.items() for a, _ in astq.self_stores(f.node) if a == "_start_connect" and n_ not in ("__init__",)]
+    writers = [(n_, x.attr) for n_, f in tcls.methods.items() for x in ast.walk(f.node)
+               if isinstance(x, ast.Attribute) and isinstance(x.ctx, (ast.Store, ast.Del)) and x.attr == "_start_connect" and n_ not in ("__init__",)]
     ctx.ob(R1, TIMEOUT, f"only start_connect sets the start stamp ({[w[0] for w in writers]})", [w[0] for w in writers] == ["start_connect"])
     ff = m.method(TIMEOUT, "from_float")
-    ok = "return Timeout(read=timeout, connect=timeout)" in astq.text(ff.node)
-    ctx.ob(R1, ff.qual, "from_float builds a new Timeout(read=t, connect=t)", ok)
+    outs, it = run_function(m, ff, TRule(), TIMEOUT)
+    frow = [o for o in _rows(outs) if o.kind == "return"]
+    pf = "p:" + ff.params()[0]
+    ok = bool(frow) and all(term_of(o.val) == T("new:Timeout", f"connect={pf}", f"read={pf}") for o in frow)
+    ctx.ob(R1, ff.qual, "from_float builds a new Timeout(read=t, connect=t)", ok, "" if ok else str([term_of(o.val) for o in frow]))
 
     # ------------------------------------------------------------------ R2 validation
-    R2 = ctx.rule("C19-R2", "invalid values are rejected when the Timeout is built: each constructor field is stored only after _validate_timeout, which rejects booleans before the numeric tests, non-numbers, and values <= 0", "E6 + E5")
-    for fld, par in (("_connect", "connect"), ("_read", "read"), ("total", "total")):
-        st_ = [n for n in astq.walk_fn(init.node) if isinstance(n, ast.Assign) and astq.text(n.targets[0]) == f"self.{fld}"]
-        ok = len(st_) == 1 and isinstance(st_[0].value, ast.Call) and astq.call_text(st_[0].value) == "self._validate_timeout" and astq.text(st_[0].value.args[0]) == par
-        ctx.ob(R2, init.qual, f"self.{fld} = _validate_timeout({par}, ...)", ok, "" if ok else "a timeout field is stored unvalidated")
-    others = [(n_, a) for n_, f in m.cls(TIMEOUT).methods.items() if n_ != "__init__" for a, _ in astq.self_stores(f.node) if a in ("_connect", "_read", "total")]
+    R2 = ctx.rule("C19-R2", "invalid values are rejected when the Timeout is built: each constructor field is stored only after _validate_timeout, which rejects booleans before the numeric tests, non-numbers, and values <= 0", "E10 effect rows")
+
+    class InitRule(TRule):
+        def setattr(self, it, st, target, base, av):
+            if isinstance(target.value, ast.Name) and target.value.id == "self":
+                st.ts["ev"] = st.ts.get("ev", ()) + (("store", target.attr, term_of(av)),)
+
+    outs, it = run_function(m, init, InitRule(), TIMEOUT)
+    irows = [o for o in _rows(outs) if o.kind != "raise"]
+    ctx.sites(R2, len(irows), 1, "normal rows of Timeout.__init__")
+    for o in irows[:1]:
+        stores = {e[1]: e[2] for e in evs(o) if e[0] == "store"}
+        for fld, par in (("_connect", "connect"), ("_read", "read"), ("total", "total")):
+            v = stores.get(fld, "")
+            op, args = destruct(v)
+            ok = op == "self._validate_timeout" and args[:1] == (f"p:{par}",)
+            ctx.ob(R2, init.qual, f"self.{fld} = _validate_timeout({par}, ...)", ok, "" if ok else f"stored value {v or 'missing'}: a timeout field is stored unvalidated", node=init.node)
+    others = [(n_, a) for n_, f in tcls.methods.items() if n_ != "__init__" for a, _ in astq.self_stores(f.node) if a in ("_connect", "_read", "total")]
     ctx.ob(R2, TIMEOUT, "the three fields are only set by the constructor", not others, str(others))
     vt = m.method(TIMEOUT, "_validate_timeout")
-
-    class VR(BaseRule):
-        def call(self, it, st, node, recv, pos, kw):
-            t = ast.unparse(node.func)
-            if t == "float":
-                s = st.copy()
-                s.ts["ev"] = s.ts.get("ev", ()) + ("float",)
-                return [Out("normal", s, UNK), Out("raise", s.copy(), exc("builtins.TypeError")), Out("raise", s.copy(), exc("builtins.ValueError"))]
-            q = it.resolve_callee(node, recv)
-            if q and it.m.is_exception_class(q):
-                return [Out("normal", st, AV("exc", it.m.norm(q), truth=True, none=False))]
-            return [Out("normal", st, UNK)]
-
-        def compare(self, it, st, node, a, b):
-            if len(node.ops) == 1 and isinstance(node.ops[0], (ast.LtE, ast.Lt)) and a.sym == "p:value":
-                st.ts["ev"] = st.ts.get("ev", ()) + ("cmp<=0" if isinstance(node.ops[0], ast.LtE) else "cmp<0",)
-            return None
-
-        def isinstance(self, it, st, node, av, classes):
-            if classes == ["builtins.bool"]:
-                st.ts["ev"] = st.ts.get("ev", ()) + ("isbool",)
-            return None
-
-        def global_value(self, it, name):
-            if name == "_DEFAULT_TIMEOUT":
-                return AV("const", ("enum", "_DEFAULT_TIMEOUT"), truth=True, none=False)
-            return None
-
-    outs, it = run_function(m, vt, VR(), TIMEOUT, record_decisions=True)
+    pv = "p:" + vt.params()[0]
+    outs, it = run_function(m, vt, TRule(), TIMEOUT)
+    ctx.states += it.budget.steps
     seen = set()
-    for o in outs:
-        if o.kind == "raise" and o.val.val in (EXT_TOP.val, BASE_TOP.val):
-            continue
-        isbool = o.st.ts.get(("isinst", "p:value", ("builtins.bool",)))
-        none = o.st.facts.get("p:value", (None, None))[1]
-        le0 = o.st.ts.get(("cmp", "p:value", "<=", "0"))
+    for o in _rows(outs):
+        isbool = o.st.ts.get(("isinst", pv, ("builtins.bool",)))
+        none = o.st.facts.get(pv, (None, None))[1]
+        is_def = o.st.ts.get(("cmp", pv, "is", DEFAULT_T))
+        le0 = o.st.ts.get(("cmp", pv, "<=", "0"))
+        lt0 = o.st.ts.get(("cmp", pv, "<", "0"))
         ev = o.st.ts.get("ev", ())
-        key = (none, isbool, le0, outcome_name(o), "float" in ev)
+        name = outcome_name(o) if o.kind != "return" else "return:" + term_of(o.val)
+        key = (none, is_def, isbool, le0, lt0, name, "float" in ev)
         if key in seen:
             continue
         seen.add(key)
-        name = outcome_name(o)
         if isbool is True:
             ok = name == "raise:ValueError" and "float" not in ev
             ctx.ob(R2, vt.qual, f"bool -> {name} before any numeric test", ok, "" if ok else "True/False pass as 1/0 seconds", witness=o.st.witness(), node=vt.node)
@@ -110,63 +230,111 @@ def run(ctx):
             ok = name == "raise:ValueError"
             ctx.ob(R2, vt.qual, f"value <= 0 -> {name}", ok, "" if ok else "zero or negative timeouts are accepted", witness=o.st.witness(), node=vt.node)
         elif o.kind == "return":
-            v = o.st.view(o.val)
-            okv = v.sym == "p:value"
-            if none is True or o.st.ts.get(("cmp", "p:value", "is", "('enum', '_DEFAULT_TIMEOUT')")) is True:
-                ctx.ob(R2, vt.qual, "None / default sentinel pass through unchanged", okv, witness=o.st.witness(), node=vt.node)
+            okv = name == "return:" + pv
+            if none is True or is_def is True:
+                ctx.ob(R2, vt.qual, "None / default sentinel pass through unchanged", okv, name, witness=o.st.witness(), node=vt.node)
             else:
                 ok = okv and le0 is False and isbool is False and "float" in ev
                 ctx.ob(R2, vt.qual, f"accepted value: not bool, float()-convertible, > 0 (tests on path: bool={isbool}, <=0:{le0}, float={'float' in ev})", ok,
-                       "" if ok else "a value is accepted without having passed all three tests", witness=o.st.witness(), node=vt.node)
+                       "" if ok else ("zero is accepted: the positivity test must be `value <= 0`" if lt0 is False and le0 is None else "a value is accepted without having passed all three tests"), witness=o.st.witness(), node=vt.node)
         elif name in ("raise:ValueError",):
             ctx.ob(R2, vt.qual, f"non-number -> {name}", True)
         else:
             ctx.ob(R2, vt.qual, f"outcome {name}", False, "an invalid timeout surfaces as something other than ValueError", witness=o.st.witness(), node=vt.node)
     ctx.sites(R2, len(seen), 5, "rows of _validate_timeout")
-    cmps = [n for n in astq.walk_fn(vt.node) if isinstance(n, ast.Compare) and astq.text(n.left) == "value" and isinstance(n.ops[0], (ast.Lt, ast.LtE))]
-    ok = bool(cmps) and all(isinstance(c.ops[0], ast.LtE) and astq.text(c.comparators[0]) == "0" for c in cmps)
-    ctx.ob(R2, vt.qual, "the positivity test is `value <= 0` (zero is rejected)", ok)
 
     # ------------------------------------------------------------------ R3 shapes
-    R3 = ctx.rule("C19-R3", "connect_timeout returns connect, total, or min(connect, total); every numeric read_timeout computed with a total is max(0, e) with e bounded by total - elapsed and, when read is set, by read", "E5 + min/max algebra")
-    ctp = m.cls(TIMEOUT).methods.get("connect_timeout")
-    rtp = m.cls(TIMEOUT).methods.get("read_timeout")
+    R3 = ctx.rule("C19-R3", "connect_timeout returns connect, total, or min(connect, total); every numeric read_timeout computed with a total is max(0, e) with e bounded by total - elapsed and, when read is set, by read", "E10 effect rows + min/max normal form")
+    ctp = tcls.methods.get("connect_timeout")
+    rtp = tcls.methods.get("read_timeout")
     if ctp is None or rtp is None:
         raise AnalysisError("connect_timeout / read_timeout properties not found")
-    rets = sorted([r for r in astq.walk_fn(ctp.node) if isinstance(r, ast.Return)], key=lambda r: r.lineno)
-    texts = [astq.text(r.value) for r in rets]
-    ok = texts == ["self._connect", "self.total", "min(self._connect, self.total)"]
-    ctx.ob(R3, ctp.qual, f"returns {texts}", ok, "" if ok else "the connect phase may wait longer than min(connect, total)")
-    guards = [astq.text(astq.enclosing(r, ast.If).test) if astq.enclosing(r, ast.If) is not None else None for r in rets]
-    ok = guards[:2] == ["self.total is None", "self._connect is None or self._connect is _DEFAULT_TIMEOUT"]
-    ctx.ob(R3, ctp.qual, f"guards {guards[:2]}", ok)
-    rets = sorted([r for r in astq.walk_fn(rtp.node) if isinstance(r, ast.Return)], key=lambda r: r.lineno)
-    n3 = 0
-    for r in rets:
-        shape = _minmax_terms(r.value)
-        g = astq.enclosing(r, ast.If)
-        gt_ = astq.text(g.test) if g is not None else ""
-        if "self.total" not in astq.text(r.value):
+    C, Tt, Rd = "self._connect", "self.total", "self._read"
+    outs, it = run_function(m, ctp, TRule(), TIMEOUT)
+    ctx.states += it.budget.steps
+    seen = set()
+    n = 0
+    for o in _rows(outs):
+        if o.kind != "return":
             continue
-        n3 += 1
-        elapsed = "self.total - self.get_connect_duration()"
-        if "self._read" in astq.text(r.value):
-            ok = shape == ("max", ["0", ("min", [elapsed, "self._read"])]) or shape == ("max", ["0", ("min", ["self._read", elapsed])])
+        rt = _norm(term_of(o.val))
+        t_none = o.st.facts.get(Tt, (None, None))[1]
+        c_unset = _unset(o, C)
+        lt = o.st.ts.get(("cmp", Tt, "<", C))
+        le = o.st.ts.get(("cmp", Tt, "<=", C))
+        gt_ = o.st.ts.get(("cmp", C, "<", Tt))
+        ge_ = o.st.ts.get(("cmp", C, "<=", Tt))
+        key = (rt, t_none, c_unset, lt, le, gt_, ge_)
+        if key in seen:
+            continue
+        seen.add(key)
+        n += 1
+        if t_none is True:
+            ok, why = rt == C, "without a total the connect timeout is the configured connect value"
+        elif t_none is False and c_unset is True:
+            ok, why = rt == Tt, "without a connect value the connect phase is bounded by total"
+        elif t_none is False and c_unset is False:
+            total_le = lt is True or le is True or gt_ is False or ge_ is False  # row knows total <= connect (or total < connect)
+            conn_le = lt is False or le is False or gt_ is True or ge_ is True    # row knows connect <= total
+            ok = rt == _norm(T("min", C, Tt)) or (rt == Tt and total_le) or (rt == C and conn_le)
+            why = "with both set the connect phase must get min(connect, total)"
         else:
-            ok = shape == ("max", ["0", elapsed])
-        ctx.ob(R3, rtp.qual, f"`{astq.text(r)}`", ok, "" if ok else "the response wait is not clamped to [0, min(read, total - elapsed)]", node=r)
-    ctx.sites(R3, n3, 2, "read_timeout returns involving total")
-    # the branch using total-and-read is selected exactly when both are set
-    ifs = [n for n in astq.walk_fn(rtp.node) if isinstance(n, ast.If) and "self.total is not None" in astq.text(n.test)]
-    ok = len(ifs) >= 2 and "self._read is not None" in astq.text(ifs[0].test) and "self._read is not _DEFAULT_TIMEOUT" in astq.text(ifs[0].test)
-    ctx.ob(R3, rtp.qual, "total-and-read branch requires both to be set; total-only branch follows", ok)
+            ok, why = False, f"a value is returned without deciding whether total / connect are set (total None={t_none}, connect unset={c_unset})"
+        ctx.ob(R3, ctp.qual, f"connect_timeout -> {rt} [total None={t_none}, connect unset={c_unset}]", ok, "" if ok else why + ": the connect phase may wait longer than min(connect, total)", witness=o.st.witness(), node=ctp.node)
+    ctx.sites(R3, n, 3, "rows of connect_timeout")
+    outs, it = run_function(m, rtp, TRule(raising={"get_connect_duration": "urllib3.exceptions.TimeoutStateError"}), TIMEOUT)
+    ctx.states += it.budget.steps
+    E = T("sub", Tt, T("self.get_connect_duration"))
+    seen = set()
+    n = 0
+    for o in _rows(outs):
+        if o.kind != "return":
+            continue
+        rt = _norm(term_of(o.val))
+        t_unset, r_unset = _unset(o, Tt), _unset(o, Rd)
+        started = o.st.facts.get("self._start_connect", (None, None))[1]
+        key = (rt, t_unset, r_unset, started)
+        if key in seen:
+            continue
+        seen.add(key)
+        n += 1
+        if t_unset is True:
+            ok = rt in (T("self.resolve_default_timeout", Rd), T("Timeout.resolve_default_timeout", Rd), Rd)
+            why = "without a total the response wait is the configured read value"
+        elif t_unset is False and r_unset is True:
+            ok, why = rt == _norm(T("max", "0", E)), "with only a total the response wait must be max(0, total - elapsed)"
+        elif t_unset is False and r_unset is False:
+            if started is True:  # clock not started yet
+                ok, why = rt == Rd, "before the clock is started only the read value is known"
+            else:
+                ok, why = rt == _norm(T("max", "0", T("min", E, Rd))), "with both set the response wait must be max(0, min(total - elapsed, read))"
+        else:
+            ok, why = False, f"a value is returned without deciding whether total / read are set (total unset={t_unset}, read unset={r_unset})"
+        ctx.ob(R3, rtp.qual, f"read_timeout -> {rt} [total unset={t_unset}, read unset={r_unset}, clock unstarted={started}]", ok,
+               "" if ok else why + ": the response wait is not clamped to [0, min(read, total - elapsed)]", witness=o.st.witness(), node=rtp.node)
+    ctx.sites(R3, n, 3, "rows of read_timeout")
     gd = m.method(TIMEOUT, "get_connect_duration")
-    ok = "return time.monotonic() - self._start_connect" in astq.text(gd.node)
-    ctx.ob(R3, gd.qual, "elapsed = monotonic() - start stamp", ok)
+    outs, it = run_function(m, gd, TRule(), TIMEOUT)
+    grow = [o for o in _rows(outs) if o.kind == "return"]
+    ok = bool(grow) and all(term_of(o.val) == T("sub", T("time.monotonic"), "self._start_connect") for o in grow)
+    ctx.ob(R3, gd.qual, "elapsed = monotonic() - start stamp", ok, "" if ok else str([term_of(o.val) for o in grow]))
 
     # ------------------------------------------------------------------ R4 order in _make_request
-    R4 = ctx.rule("C19-R4", "order in _make_request: clock started, then the connect timeout applied to the connection, then validation/connect and the request; the read timeout is computed after the request was sent; a zero budget raises ReadTimeoutError and the read timeout is applied before getresponse()", "E3 via E4")
+    R4 = ctx.rule("C19-R4", "order in _make_request: clock started, then the connect timeout applied to the connection, then validation/connect and the request; the read timeout is computed after the request was sent; a zero budget raises ReadTimeoutError and the read timeout is applied before getresponse()", "E3 via E4 (helpers that touch the timeout are inlined)")
     mr = m.method(POOL, "_make_request")
+    HOT_ATTRS = {"read_timeout", "connect_timeout", "start_connect", "getresponse"}
+
+    def hot(fi):
+        for n_ in ast.walk(fi.node):
+            if isinstance(n_, ast.Attribute) and n_.attr in HOT_ATTRS:
+                return True
+            if isinstance(n_, ast.Assign) and any(isinstance(t, ast.Attribute) and t.attr == "timeout" for t in n_.targets):
+                return True
+        return False
+
+    modelled = {"_validate_conn", "_get_timeout", "_raise_timeout", "_make_request", "urlopen", "_prepare_proxy", "_new_conn", "_get_conn", "_put_conn"}
+    inline = {f.qual for n_, f in m.cls(POOL).methods.items() if n_ not in modelled and hot(f)}
+    ctx.extra["c19_inlined_helpers"] = sorted(inline)
 
     class MR(BaseRule):
         def call(self, it, st, node, recv, pos, kw):
@@ -188,6 +356,8 @@ def run(ctx):
             q = it.resolve_callee(node, recv)
             if q and it.m.is_exception_class(q):
                 return [Out("normal", st, AV("exc", it.m.norm(q), truth=True, none=False))]
+            if q in inline:
+                return None  # inlined by the interpreter
             return [Out("normal", st, UNK)]
 
         def getattr(self, it, st, node, base):
@@ -200,7 +370,7 @@ def run(ctx):
             if isinstance(target, ast.Attribute) and target.attr == "timeout" and base is not None and base.kind == "obj" and base.val == "conn":
                 st.ts["ev"] = st.ts.get("ev", ()) + ("set-conn-timeout:" + ",".join(sorted(t for t in av.tags if t in ("connect_timeout", "read_timeout"))),)
 
-    outs, it = run_function(m, mr, MR(), POOL, params={"conn": AV("obj", "conn", truth=True, none=False)}, record_decisions=True)
+    outs, it = run_function(m, mr, MR(), POOL, inline=frozenset(inline), params={"conn": AV("obj", "conn", truth=True, none=False)}, record_decisions=True)
     ctx.states += it.budget.steps
     seen = set()
     for o in outs:
@@ -238,60 +408,130 @@ def run(ctx):
     # every connect() reachable on the request path happens under a started clock
     uo = m.method(POOL, "urlopen")
     pp = [c for c in astq.calls(uo.node) if astq.call_text(c) == "self._prepare_proxy"]
-    mrc = [c for c in astq.calls(uo.node) if astq.call_text(c) == "self._make_request"]
     started_before = [c for c in astq.calls(uo.node) if astq.call_text(c).endswith(".start_connect") and pp and c.lineno < pp[0].lineno]
     for c in pp:
         ok = bool(started_before)
         ctx.ob(R4, uo.qual, "tunnel set-up (_prepare_proxy -> connect) runs under the request's started clock", ok,
                "" if ok else "the CONNECT/TLS set-up through a proxy happens before _make_request starts the request's clock (on a fresh clone): its duration is not deducted from `total`, so the response wait can exceed total - time already spent connecting", node=c)
         conn_names = set(astq.assigned_from(uo.node, lambda v: isinstance(v, ast.Call) and astq.call_text(v) == "self._get_conn"))
-        prev = [n for n in astq.walk_fn(uo.node) if isinstance(n, ast.Assign) and isinstance(n.targets[0], ast.Attribute) and n.targets[0].attr == "timeout"
-                and astq.text(n.targets[0].value) in conn_names and n.lineno < c.lineno]
+        prev = [n_ for n_ in astq.walk_fn(uo.node) if isinstance(n_, ast.Assign) and isinstance(n_.targets[0], ast.Attribute) and n_.targets[0].attr == "timeout"
+                and astq.text(n_.targets[0].value) in conn_names and n_.lineno < c.lineno]
         okc = bool(prev) and "connect_timeout" in astq.text(prev[-1].value)
         ctx.ob(R4, uo.qual, "the connect timeout is applied to the connection before the tunnel set-up", okc, node=c)
 
     # ------------------------------------------------------------------ R5 socket application
-    R5 = ctx.rule("C19-R5", "the connection's timeout is applied to the socket before sending and before waiting for the response", "E3")
+    R5 = ctx.rule("C19-R5", "the connection's timeout is applied to the socket before sending and before waiting for the response", "E4 events (helpers that touch the socket timeout are inlined)")
+    HC = f"{CN}.HTTPConnection"
+    sock_helpers = {f.qual for n_, f in m.cls(HC).methods.items() if n_ not in ("request", "getresponse", "connect", "_new_conn", "request_chunked")
+                    and any(isinstance(x, ast.Attribute) and x.attr == "settimeout" for x in ast.walk(f.node))}
+
+    class SockRule(TermRule):
+        def getattr(self, it, st, node, base):
+            if base.kind == "self":
+                return tv(f"self.{node.attr}")
+            return None
+
+        def call_hook(self, it, st, node, recv, pos, kw):
+            f = node.func
+            t = ast.unparse(f)
+            if isinstance(f, ast.Attribute) and f.attr == "settimeout" and recv is not None:
+                s = st.copy()
+                s.ts["ev"] = s.ts.get("ev", ()) + (("settimeout", term_of(recv), term_of(pos[0]) if pos else "?"),)
+                return [Out("normal", s, const(None))]
+            io = t in ("self.putrequest", "self.endheaders", "self.send", "super().getresponse", "super().request", "self._send_request")
+            if io:
+                s = st.copy()
+                s.ts["ev"] = s.ts.get("ev", ()) + (("io", t),)
+                return [Out("normal", s, tv(T("io:" + t), none=False, truth=True))]
+            q = it.resolve_callee(node, recv)
+            if q in sock_helpers:
+                return None
+            if q and it.m.is_exception_class(q):
+                return [Out("normal", st, AV("exc", it.m.norm(q), truth=True, none=False))]
+            return [Out("normal", st, UNK)]
+
+        def for_iter(self, it, st, stmt, itv):
+            return [(st.copy(), False)]  # body chunks are irrelevant to the ordering
+
     for name in ("request", "getresponse"):
-        fi = m.method(f"{CN}.HTTPConnection", name)
-        sts = [c for c in astq.calls(fi.node) if astq.call_text(c) == "self.sock.settimeout"]
-        deleg = [c for c in astq.calls(fi.node) if astq.call_text(c) in ("super().getresponse", "self.putrequest")]
-        ok = bool(sts) and astq.text(sts[0].args[0]) == "self.timeout" and bool(deleg) and sts[0].lineno < deleg[0].lineno
-        ctx.ob(R5, fi.qual, "sock.settimeout(self.timeout) precedes the I/O", ok, "" if ok else "a reused connection keeps the previous request's socket timeout")
-    nc = m.method(f"{CN}.HTTPConnection", "_new_conn")
-    cc = [c for c in astq.calls(nc.node) if astq.call_text(c) == "connection.create_connection"]
-    ok = bool(cc) and len(cc[0].args) > 1 and astq.text(cc[0].args[1]) == "self.timeout"
+        fi = m.method(HC, name)
+        outs, it = run_function(m, fi, SockRule(), HC, inline=frozenset(sock_helpers), budget=400000)
+        ctx.states += it.budget.steps
+        seen = set()
+        nio = 0
+        for o in outs:
+            seq = evs(o)
+            ios = [i for i, e in enumerate(seq) if e[0] == "io"]
+            if not ios:
+                continue
+            sock_none = o.st.facts.get("self.sock", (None, None))[1]
+            sets = [i for i, e in enumerate(seq) if e[0] == "settimeout" and e[1] == "self.sock" and e[2] == "self.timeout" and i < ios[0]]
+            key = (bool(sets), sock_none)
+            if key in seen:
+                continue
+            seen.add(key)
+            nio += 1
+            need = not (name == "request" and sock_none is True)  # no socket yet: connect() creates it with the timeout
+            ok = bool(sets) or not need
+            ctx.ob(R5, fi.qual, f"sock.settimeout(self.timeout) precedes the I/O (socket absent={sock_none})", ok,
+                   "" if ok else f"events {seq[:6]}: a reused connection keeps the previous request's socket timeout", witness=o.st.witness(), node=fi.node)
+        ctx.sites(R5, nio, 1, f"I/O paths of {name}")
+    nc = m.method(HC, "_new_conn")
+    cc = [c for c in astq.calls(nc.node) if astq.call_text(c).endswith("create_connection")]
+    ok = bool(cc) and (len(cc[0].args) > 1 and astq.itext(nc.node, cc[0].args[1]) == "self.timeout" or (astq.kwarg(cc[0], "timeout") is not None and astq.itext(nc.node, astq.kwarg(cc[0], "timeout")) == "self.timeout"))
     ctx.ob(R5, nc.qual, "the connect uses the connection's timeout", ok)
 
-    # ------------------------------------------------------------------ R6 request overrides pool
-    R6 = ctx.rule("C19-R6", "a request-level timeout fully overrides the pool's: the pool's Timeout is used only for the default sentinel", "E5 on _get_timeout")
-    ifs = [n for n in astq.walk_fn(gt.node) if isinstance(n, ast.If)]
-    first = sorted(ifs, key=lambda n: n.lineno)[0] if ifs else None
-    ok = first is not None and astq.text(first.test) == "timeout is _DEFAULT_TIMEOUT" and any("self.timeout.clone()" in astq.text(s) for s in first.body)
-    ctx.ob(R6, gt.qual, "pool default only when the request passed the sentinel", ok)
-    uses_pool = [n for n in astq.walk_fn(gt.node) if isinstance(n, ast.Attribute) and astq.text(n) == "self.timeout"]
-    ctx.ob(R6, gt.qual, "self.timeout is read exactly once", len(uses_pool) == 1)
-    ok = any(astq.text(astq.norm_if(n)[0]) == "isinstance(timeout, Timeout)" and any("timeout.clone()" in astq.text(s) for s in astq.norm_if(n)[1])
-             and any("Timeout.from_float(timeout)" in astq.text(s) for s in astq.norm_if(n)[2]) for n in ifs)
-    ctx.ob(R6, gt.qual, "a Timeout is cloned, a number converted with from_float", ok)
-
     # ------------------------------------------------------------------ R7 timeout mapping
-    R7 = ctx.rule("C19-R7", "socket timeouts surface as ReadTimeoutError: socket.timeout and EAGAIN/EWOULDBLOCK map to ReadTimeoutError", "E5 on _raise_timeout")
-    rt = m.method(POOL, "_raise_timeout")
-    ifs = [n for n in astq.walk_fn(rt.node) if isinstance(n, ast.If)]
-    ctx.sites(R7, len(ifs), 2, "branches of _raise_timeout")
-    kinds = {}
-    for n in ifs:
-        ok = astq.all_paths_end_in(n.body, lambda s: isinstance(s, ast.Raise) and "ReadTimeoutError" in astq.text(s.exc))
-        kinds[astq.text(n.test)] = ok
-    ok = kinds.get("isinstance(err, SocketTimeout)") is True
-    ctx.ob(R7, rt.qual, "socket.timeout -> ReadTimeoutError", ok)
-    ok = any(k.replace('"', "'") == "hasattr(err, 'errno') and err.errno in _blocking_errnos" and v for k, v in kinds.items())
-    ctx.ob(R7, rt.qual, "EAGAIN/EWOULDBLOCK -> ReadTimeoutError", ok)
-    be = m.assigns.get(CP, {}).get("_blocking_errnos")
-    ok = bool(be) and astq.text(be[-1].value) in ("{errno.EAGAIN, errno.EWOULDBLOCK}", "{errno.EWOULDBLOCK, errno.EAGAIN}")
-    ctx.ob(R7, CP, "_blocking_errnos == {EAGAIN, EWOULDBLOCK}", ok)
-    # callers: the read-side handler in _make_request passes the read timeout
+    R7 = ctx.rule("C19-R7", "socket timeouts surface as ReadTimeoutError: socket.timeout and EAGAIN/EWOULDBLOCK map to ReadTimeoutError", "E10 effect rows of _raise_timeout")
+    rt_ = m.method(POOL, "_raise_timeout")
+    pe = "p:" + rt_.params()[0]
+    outs, it = run_function(m, rt_, TRule(), POOL)
+    ctx.states += it.budget.steps
+    seen = set()
+    n_sock = n_errno = 0
+    for o in _rows(outs):
+        is_sock = None
+        for k, v in o.st.ts.items():
+            if isinstance(k, tuple) and k[0] == "isinst" and k[1] == pe:
+                is_sock = v
+        has = o.st.facts.get(T("hasattr", pe, "'errno'"), (None, None))[0]
+        blocking = o.st.ts.get(("cmp", f"{pe}.errno", "in", "g:_blocking_errnos"))
+        name = outcome_name(o)
+        key = (is_sock, has, blocking, name)
+        if key in seen:
+            continue
+        seen.add(key)
+        if is_sock is True:
+            n_sock += 1
+            ctx.ob(R7, rt_.qual, f"socket.timeout -> {name}", name == "raise:ReadTimeoutError", "" if name == "raise:ReadTimeoutError" else "a socket timeout is not reported as ReadTimeoutError", witness=o.st.witness(), node=rt_.node)
+        elif has is True and blocking is True:
+            n_errno += 1
+            ctx.ob(R7, rt_.qual, f"EAGAIN/EWOULDBLOCK -> {name}", name == "raise:ReadTimeoutError", "" if name == "raise:ReadTimeoutError" else "a would-block error of a timed-out non-blocking read is not reported as ReadTimeoutError", witness=o.st.witness(), node=rt_.node)
+        else:
+            ok = o.kind != "raise"
+            ctx.ob(R7, rt_.qual, f"not a timeout (socket.timeout={is_sock}, errno present={has}, blocking errno={blocking}) -> {name}", ok,
+                   "" if ok else "an error that is not a timeout is turned into one", witness=o.st.witness(), node=rt_.node)
+    ctx.sites(R7, n_sock, 1, "rows for socket.timeout")
+    ctx.sites(R7, n_errno, 1, "rows for blocking errnos")
+    isinst_cls = set()
+    for o in _rows(outs):
+        for k in o.st.ts:
+            if isinstance(k, tuple) and k[0] == "isinst" and k[1] == pe:
+                isinst_cls |= set(k[2])
+    ctx.ob(R7, rt_.qual, f"the class tested is socket.timeout ({sorted(isinst_cls)})", bool(isinst_cls) and all(m.issub("socket.timeout", c) and m.issub(c, "builtins.OSError") for c in isinst_cls if c))
+    try:
+        be = fold.module_const(CP, "_blocking_errnos")
+    except Exception:
+        be = None
+    import errno as _errno
+
+    ok = isinstance(be, (set, frozenset)) and {str(x) for x in be} >= {"errno.EAGAIN", "errno.EWOULDBLOCK"} or be == {_errno.EAGAIN, _errno.EWOULDBLOCK}
+    if not ok:
+        bs = m.assigns.get(CP, {}).get("_blocking_errnos")
+        txt = astq.text(bs[-1].value) if bs else ""
+        ok = "errno.EAGAIN" in txt and "errno.EWOULDBLOCK" in txt
+    ctx.ob(R7, CP, "_blocking_errnos contains EAGAIN and EWOULDBLOCK", ok)
     calls_ = [c for c in astq.calls(mr.node) if astq.call_text(c) == "self._raise_timeout"]
     ctx.ob(R7, mr.qual, "getresponse() errors are passed to _raise_timeout with the read timeout",
-           any(astq.kwarg(c, "timeout_value") is not None and any(isinstance(x, ast.Attribute) and x.attr == "read_timeout" for x in astq.sources_of(mr.node, astq.kwarg(c, "timeout_value"))) for c in calls_))
+           any(astq.kwarg(c, "timeout_value") is not None and any(isinstance(x, ast.Attribute) and x.attr == "read_timeout" for x in astq.sources_of(mr.node, astq.kwarg(c, "timeout_value")))
+               or any(isinstance(x, ast.Call) for x in astq.sources_of(mr.node, astq.kwarg(c, "timeout_value")) if astq.kwarg(c, "timeout_value") is not None) for c in calls_))
